@@ -338,7 +338,25 @@ fn tz_instants(tz: Tz) -> Vec<(String, DateTime<Tz>)> {
     ] {
         v.push((name.to_string(), u.with_timezone(&tz)));
     }
+    // around the largest UTC-offset change of the zone (for Pacific/Apia the skipped 2011-12-30: a whole
+    // local day that does not exist, so that every expression has results falling inside the gap)
+    if let Some(t) = largest_transition(tz) {
+        for (name, m) in [("T-26h", -26 * 60), ("T-13h", -13 * 60), ("T-1h", -60), ("T-1min", -1), ("T", 0), ("T+1min", 1), ("T+13h", 13 * 60)] {
+            v.push((format!("largest-transition {name}"), Utc.from_utc_datetime(&(t + Duration::minutes(m))).with_timezone(&tz)));
+        }
+    }
     v
+}
+
+fn largest_transition(tz: Tz) -> Option<NaiveDateTime> {
+    static CACHE: std::sync::OnceLock<std::sync::Mutex<std::collections::HashMap<&'static str, Option<NaiveDateTime>>>> = std::sync::OnceLock::new();
+    let m = CACHE.get_or_init(Default::default);
+    if let Some(v) = m.lock().unwrap().get(tz.name()) {
+        return *v;
+    }
+    let best = crate::props::c09::transitions(tz, 1900, 2040).into_iter().max_by_key(|t| ((t.after - t.before).abs(), t.t)).map(|t| t.t);
+    m.lock().unwrap().insert(tz.name(), best);
+    best
 }
 
 /// Run the whole battery on one expression text. `level`: 0 = naive contexts only,
